@@ -307,6 +307,10 @@ def check(pid, tier):
                 write_fail_evidence(pid, tier, seed, cfg, t0, "build failed")
                 print("INCONCLUSIVE property=%s build failed" % pid)
                 return 2
+    if cfg.get("needs_legacygen") and not ensure_legacygen():
+        write_fail_evidence(pid, tier, seed, cfg, t0, "legacygen build failed")
+        print("INCONCLUSIVE property=%s legacygen build failed" % pid)
+        return 2
     replay_tier(pid, cfg, binaries, res, outdir)
     jobs = []
     for ri, r in enumerate(runs):
@@ -404,16 +408,30 @@ def run_fuzz(pid, r, res, outdir):
     shutil.rmtree(cache, ignore_errors=True)
 
 
+def ensure_legacygen():
+    """The legacy oracle co-process (iavl v0.20.0 from the module cache); independent of /repo."""
+    out = os.path.join(ROOT, "build", "legacygen")
+    if os.path.exists(out):
+        return True
+    os.makedirs(os.path.dirname(out), exist_ok=True)
+    p = subprocess.run(["go", "build", "-o", out, "."], cwd=module_dir("legacygen"), env=env_base(), stdout=subprocess.PIPE,
+                       stderr=subprocess.STDOUT, text=True)
+    if p.returncode != 0:
+        print(p.stdout[-3000:])
+        return False
+    return True
+
+
 def setup():
     ok = True
     for mod in ("harness", "harness_v2", "legacygen"):
         if not os.path.isdir(module_dir(mod)):
             continue
         if mod == "legacygen":
-            p = subprocess.run(["go", "build", "-o", os.path.join(WORK, "build", "legacygen"), "."], cwd=module_dir(mod), env=env_base(),
-                               stdout=subprocess.PIPE, stderr=subprocess.STDOUT, text=True)
-            if p.returncode != 0:
-                print(p.stdout[-3000:])
+            lg = os.path.join(ROOT, "build", "legacygen")
+            if os.path.exists(lg):
+                os.remove(lg)
+            if not ensure_legacygen():
                 ok = False
             continue
         b = build(mod)
@@ -427,6 +445,8 @@ def setup():
 
 def replay(pid, path):
     mod = CHECKS[pid].get("module", "harness")
+    if CHECKS[pid].get("needs_legacygen"):
+        ensure_legacygen()
     b = build(mod)
     if b is None:
         return 2
